@@ -33,6 +33,7 @@ def p_assert(ex, args, guard, pos):
 
 def p_cover(ex, args, guard, pos):
     name = _conc_str(ex, args[0], "vCover")
+    guard = ex.conc_guard(guard)
     ex.covers[name] = b_or(ex.covers.get(name, False), guard)
     ex.cover_nassume[name] = len(ex.assumes)
     return None, guard
@@ -512,6 +513,66 @@ def m_wg_noop(ex, args, guard, pos):
     return None, guard
 
 
+def m_wg_add(ex, args, guard, pos):
+    c = getattr(ex, "conc", None)
+    if c is not None and c.recording is not None:
+        return c.wg_op("add", args[0], guard, pos, delta=args[1])
+    return None, guard
+
+
+def m_wg_done(ex, args, guard, pos):
+    c = getattr(ex, "conc", None)
+    if c is not None and c.recording is not None:
+        return c.wg_op("add", args[0], guard, pos, delta=wrap(-1, 64, True))
+    return None, guard
+
+
+def m_wg_wait(ex, args, guard, pos):
+    c = getattr(ex, "conc", None)
+    if c is not None and c.recording is not None:
+        return c.wg_op("wait", args[0], guard, pos)
+    return None, guard
+
+
+def _cond_lock_key(ex, condptr, guard, pos):
+    li = _struct_field_index(ex, "sync.Cond", "L")
+    lv, g = ex.load(_field_ptr(condptr, li), guard, pos, None, "Cond.L")
+    for ag, t, p in lv.alts:
+        if t is not None and isinstance(p, Ptr):
+            for pg, r in p.alts:
+                if r is not None:
+                    return r.key()
+    raise Unsupported("sync.Cond without a resolvable Locker")
+
+
+def m_cond_wait(ex, args, guard, pos):
+    c = getattr(ex, "conc", None)
+    if c is None or c.recording is None:
+        raise Unsupported("sync.Cond.Wait outside concurrent mode")
+    return c.cond_wait(args[0], _cond_lock_key(ex, args[0], guard, pos), guard, pos)
+
+
+def m_cond_signal(ex, args, guard, pos):
+    c = getattr(ex, "conc", None)
+    if c is None or c.recording is None:
+        return None, guard
+    return c.cond_signal(args[0], guard, pos, False)
+
+
+def m_cond_broadcast(ex, args, guard, pos):
+    c = getattr(ex, "conc", None)
+    if c is None or c.recording is None:
+        return None, guard
+    return c.cond_signal(args[0], guard, pos, True)
+
+
+def m_new_cond(ex, args, guard, pos):
+    li = _struct_field_index(ex, "sync.Cond", "L")
+    o = ex.alloc("var", "sync.Cond", ex.zero("sync.Cond"), site="sync.NewCond")
+    ex.store(Ptr.to(o.id, (li,)), args[0], guard, pos)
+    return Ptr.to(o.id), guard
+
+
 # sync.Pool: Get returns New() (fresh) or, in concurrent mode, a previously Put object (see conc layer)
 def m_pool_get(ex, args, guard, pos):
     h = getattr(ex, "pool_get_hook", None)
@@ -836,6 +897,8 @@ def install(ex):
         "vNondetBool": p_nondet_bool, "vNondetFloat64": p_nondet_float64, "vNondetString": p_nondet_string, "vNondetBytes": p_nondet_bytes,
         "vCase": p_case, "vNondetStringN": p_nondet_string_n, "vYield": p_yield, "vChoose": p_choose, "vNote": p_noop,
     }
+    from . import conc as _conc
+    ex.prim_handlers.update({"vGo": _conc.p_go, "vRun": _conc.p_run, "vAllDone": _conc.p_all_done, "vThreadDone": _conc.p_thread_done})
     for fname, fn in ex.prog.funcs.items():
         rel = fn.get("relname")
         if rel in ex.prim_handlers and "(" not in fname:
@@ -935,9 +998,14 @@ def install(ex):
         M["(*sync.RWMutex).TryLock"] = m_mutex_trylock
     if "sync.Once" in ex.prog.types:
         M["(*sync.Once).Do"] = m_once_do
-    M["(*sync.WaitGroup).Add"] = m_wg_noop
-    M["(*sync.WaitGroup).Done"] = m_wg_noop
-    M["(*sync.WaitGroup).Wait"] = m_wg_noop
+    M["(*sync.WaitGroup).Add"] = m_wg_add
+    M["(*sync.WaitGroup).Done"] = m_wg_done
+    M["(*sync.WaitGroup).Wait"] = m_wg_wait
+    if "sync.Cond" in ex.prog.types:
+        M["(*sync.Cond).Wait"] = m_cond_wait
+        M["(*sync.Cond).Signal"] = m_cond_signal
+        M["(*sync.Cond).Broadcast"] = m_cond_broadcast
+        M["sync.NewCond"] = m_new_cond
     if "sync.Pool" in ex.prog.types:
         M["(*sync.Pool).Get"] = m_pool_get
         M["(*sync.Pool).Put"] = m_pool_put
